@@ -11,12 +11,13 @@ RULE = ("Hypothesis draws a crystal (2D/3D, 1-4 sites of the diffusing species, 
         "network (connected, or several symmetry-equivalent components), site/transition prefactors and energies, and 4 endpoint pairs "
         "(i, j, R) with |R_k| <= kptgrid_k/4.  Oracles: (a) lattice equation sum_l w_sym(j->l) g(i,l,x+dx) - escape_j g(i,j,x) = delta, "
         "assembled from the raw jump list; (b) g(i,j,x) = g(j,i,-x); (c) invariance under every space-group operation; (d) uniform rate "
-        "scaling alpha gives g/alpha; (e) 3D far field g ~ -sqrt(rho_i rho_j) V / (4 pi sqrt(det D) |x|_D) along lattice directions with the "
-        "deviation * |x|^2 bounded; (f) GF.D equals the exact reference diffusivity.  Integration accuracy is decided by refinement: a "
+        "scaling alpha gives g/alpha; (e) 3D far field: g(i,i,0) - g(i,i,x) with x a quarter of the k-mesh period along each lattice direction equals "
+        "the exact lattice Green function (independent brute-force Fourier sum over periodic supercells 2x and 3x the k-mesh period, extrapolated in 1/N^3; "
+        "the reference is validated against the lattice equation in every case); (f) GF.D equals the exact reference diffusivity.  Integration accuracy is decided by refinement: a "
         "residual above the tight tolerance is accepted only if it at least halves when Nmax goes from 4 to 8.  Non-trivial: >= 2 Wyckoff "
         "sets with different energies or separation >= 3 jump lengths; distinct by (crystal, network, data, endpoints).")
 ASSUMPTIONS = ["tight tolerances: 2e-6 (3D) / 2e-5 (2D) relative to escape*|g(0)| for the lattice equation, 1e-9 for exact symmetries",
-               "far-field constant: |g*|x|_D/pole - 1| <= 1.5 (a/|x|)^2-type bound checked only beyond 3 jump lengths, calibrated on the unchanged tree",
+               "far field: tolerance 2e-6 |g(0)| + 5 x reference error bar before refinement; the continuum pole is the large-|x| limit of the exact lattice function the library is compared with",
                "network precondition of the calculator (percolating, equivalent components) is imposed by the generator"]
 SHARDS = {"quick": 4, "thorough": 16}
 
@@ -30,8 +31,14 @@ def cases(draw):
         rec = draw(cs.crystal_recipes(max_species=2, max_mobile=4, max_other=3))
     crys = cs.build(rec)
     chem = 0
+    if len(crys.basis) > 1 and draw(st.integers(0, 2)) > 0:
+        chem = draw(st.integers(1, len(crys.basis) - 1))   # the diffusing species need not be the first chemistry
     ks = [k for k in (1, 2, 3, 4) if vs.usable(crys, chem, k, 0, 60)]
+    if not ks and chem:
+        chem = 0
+        ks = [k for k in (1, 2, 3, 4) if vs.usable(crys, chem, k, 0, 60)]
     if not ks:
+        chem = 0
         rec = cs.CATALOGUE[draw(st.sampled_from(["HCP", "B2", "romega", "honeycomb", "rect2"]))]
         crys = cs.build(rec)
         ks = [k for k in (1, 2, 3, 4) if vs.usable(crys, chem, k, 0, 60)]
@@ -100,6 +107,10 @@ def residuals(case, Nmax, scale_rates=1.0):
     return out, GF, rho, jumps
 
 
+def g00(G_, i0):
+    return G_(i0, i0, np.zeros(3))
+
+
 def check(case):
     crys = cs.build(case["recipe"])
     chem = case["chem"]
@@ -107,7 +118,7 @@ def check(case):
     if len(case["pre"]) != len(sl) or len(case["preT"]) != len(jn):
         raise HarnessError("stale case")
     r4, GF, rho, jumps = residuals(case, 4)
-    classes = cs.describe(crys) + ["wyckoff%d" % min(len(sl), 3), "components%d" % min(GF.Ndiff, 3)]
+    classes = cs.describe(crys) + ["wyckoff%d" % min(len(sl), 3), "components%d" % min(GF.Ndiff, 3)] + (["diffuser_not_first_species"] if chem else [])
     tight = 2e-6 if crys.dim == 3 else 2e-5
     if r4["eq"] > tight:
         r8, _, _, _ = residuals(case, 8)
@@ -131,36 +142,52 @@ def check(case):
     Dref = ref.diffusivity(rho, jumps, crys.dim)
     eD = np.abs(np.asarray(GF.D) - Dref).max() / np.abs(Dref).max()
     require(eD <= 1e-8, lambda: "GF.D differs from the exact diffusivity by %.3e" % eD)
-    # (e) far field (3D, connected networks): along lattice directions at the largest resolved separation
+    # (e) far field (3D, connected networks): the drop g(i0,i0,0) - g(i0,i0,x) out to a quarter of the k-mesh period along every
+    # lattice direction is compared with the exact lattice Green function (oracles/gf_ref.py: brute-force Fourier sum on periodic
+    # supercells 2x and 3x the k-mesh period, Richardson-extrapolated in 1/N^3).  The continuum pole itself is approached only
+    # with problem-dependent (l/|x|)^2 corrections, so a fixed constant in front of them is not a sound oracle (it raised a false
+    # alarm on a deep-trap omega crystal with fourth-shell jumps); the exact lattice values are.
     far = None
     if crys.dim == 3 and GF.Ndiff == 1:
-        jl = max(np.linalg.norm(dx) for (_, _, dx, _) in jumps)
+        from ..oracles import gf_ref
         i0 = case["ends"][0][0]
-
-        def farfield(G_, grid):
-            D = np.asarray(G_.D)
-            Dinv = np.linalg.inv(D)
-            pole = rho[i0] * crys.volume / (4 * np.pi * np.sqrt(np.linalg.det(D)))
-            worst = None
-            for a in range(3):
-                R = np.zeros(3, dtype=int)
-                R[a] = grid[a] // 4
-                x = crys.lattice @ R
-                if np.linalg.norm(x) < 3 * jl:
-                    continue
-                xD = np.sqrt(x @ Dinv @ x)
-                dev = abs(-G_(i0, i0, x) * xD / pole - 1.) * (np.linalg.norm(x) / jl) ** 2
-                worst = dev if worst is None else max(worst, dev)
-            return worst
         grid4 = [int(q) for q in GF.kptgrid]
-        far = farfield(GF, grid4)
-        if far is not None:
+        pts = []
+        for a_ in range(3):
+            R = np.zeros(3, dtype=int)
+            R[a_] = grid4[a_] // 4
+            if R[a_] >= 2:
+                pts.append(crys.lattice @ R)
+        if pts:
+            m2 = 3 if 27 * int(np.prod(grid4)) * len(rho) ** 2 <= 4000000 else 2
+            m1 = m2 - 1
+            drops = []
+            for m in (m1, m2):
+                pg = gf_ref.PeriodicGF(crys.lattice, rho, jumps, [m * q for q in grid4])
+                if m == m1:
+                    sc_, esc_ = gf_ref.self_check(pg, rho, jumps, basis, i0, case["ends"][1][1] % len(rho), [1, 0, 1])
+                    if sc_ > 1e-9 * max(esc_ * abs(pg(i0, i0, np.zeros(3))), 1e-300):
+                        raise HarnessError("periodic Green-function reference fails its own lattice equation")
+                z = pg(i0, i0, np.zeros(3)).real
+                drops.append(np.array([z - pg(i0, i0, x).real for x in pts]))
+            w1, w2 = float(m1) ** 3, float(m2) ** 3
+            exact = (w2 * drops[1] - w1 * drops[0]) / (w2 - w1)
+            bar = 0.3 * np.abs(exact - drops[1])
+
+            def libdrops(G_):
+                z = G_(i0, i0, np.zeros(3))
+                return np.array([z - G_(i0, i0, x) for x in pts])
+            d4 = libdrops(GF)
+            tol = 2e-6 * abs(g00(GF, i0)) + 5 * bar
+            far = float((np.abs(d4 - exact) / abs(g00(GF, i0))).max())
             classes.append("farfield")
-            if far > 6.0:
-                # the same separations with a denser mesh: mesh-limited deviations shrink, a wrong pole amplitude does not
+            if np.any(np.abs(d4 - exact) > tol):
                 r8_, GF8, _, _ = residuals(case, 8)
-                far8 = farfield(GF8, grid4)
-                require(far8 <= max(6.0, vs.SHRINK * far), lambda: "far field: g*|x|_D deviates from the continuum pole by %.3f * (jump length/|x|)^2 (Nmax=8: %.3f)" % (far, far8))
+                d8 = libdrops(GF8)
+                bad = np.abs(d8 - exact) > np.maximum(tol, vs.SHRINK * np.abs(d4 - exact))
+                require(not np.any(bad), lambda: "far field: g(0) - g(x) at a quarter of the k-mesh period differs from the exact lattice Green function by %s "
+                        "(relative to |g(0)|; reference error bars %s) and does not shrink with the k-mesh (Nmax=8: %s)"
+                        % ((np.abs(d4 - exact) / abs(g00(GF, i0))).tolist(), (bar / abs(g00(GF, i0))).tolist(), (np.abs(d8 - exact) / abs(g00(GF, i0))).tolist()))
                 classes.append("farfield_integration_limited")
                 residuals(case, 4)
     # (d) uniform scaling of all rates
